@@ -90,8 +90,18 @@ class Check(object):
         print('[%s] tier=%s repo=%s' % (prop, self.tier, repo.REPO), flush=True)
 
     # ---- E2 stage ----
+    def _skip(self, name):
+        import re
+        pat = os.environ.get('VERIF_STAGES')
+        if pat and not re.search(pat, name):
+            self.partial = True
+            return True
+        return False
+
     def e2(self, name, fn, bounds=None, max_wall_s=None, chunk_paths=300, expect_nontrivial=True,
            stop_on_violation=True):
+        if self._skip(name):
+            return None
         t = time.time()
         st = ps.parallel_explore(fn, chunk_paths=chunk_paths, stop_on_violation=stop_on_violation,
                                  max_wall_s=max_wall_s)
@@ -198,6 +208,10 @@ class Check(object):
             print('[%s] %s' % (self.prop, msg))
             print('VIOLATION property=%s replay=%s' % (self.prop, path), flush=True)
             status = EXIT_VIOLATION
+        if getattr(self, 'partial', False):
+            print('[%s] PARTIAL RUN (VERIF_STAGES=%s): development/triage only' % (
+                self.prop, os.environ.get('VERIF_STAGES')))
+            self.inconclusive.append('partial run: stages filtered by VERIF_STAGES')
         if status == EXIT_OK and self.inconclusive:
             status = EXIT_INCONCLUSIVE
             for m in self.inconclusive:
